@@ -34,6 +34,7 @@ fn main() {
         "c08worker" => drivers::c08::worker(&rest),
         "c09" => drivers::c09::drive(&rest),
         "c11" => drivers::c11::drive(&rest),
+        "c11child" => drivers::c11::child(&rest),
         "c13" => drivers::c13::drive(&rest),
         "c13probe" => drivers::c13::probe(&rest),
         "c14" => drivers::c14::drive(&rest),
